@@ -40,15 +40,16 @@ Definition lval_eqb (a b : lval) : bool :=
   | LI x, LI y => x =? y
   | LF m e, LF m' e' => (m =? m') && (e =? e')
   | LInf, LInf => true
-  | LNaN, LNaN => true
+  | LNaN x, LNaN y => Bool.eqb x y
   | _, _ => false
   end.
 Lemma lval_eqb_eq : forall a b, lval_eqb a b = true -> a = b.
 Proof.
-  intros [x|x|m e| |] [y|y|m' e'| |] H; cbn in H; try discriminate; try reflexivity.
+  intros [x|x|m e| |x] [y|y|m' e'| |y] H; cbn in H; try discriminate; try reflexivity.
   - apply Bool.eqb_prop in H; now subst.
   - apply Z.eqb_eq in H; now subst.
   - apply andb_prop in H; destruct H as [H1 H2]; apply Z.eqb_eq in H1, H2; now subst.
+  - apply Bool.eqb_prop in H; now subst.
 Qed.
 
 Definition limits_row_ok (a : arith) : bool :=
